@@ -25,7 +25,7 @@ func init() {
 			"Crosses/Overlaps dispatch on the dimension of the non-empty part of each operand",
 		},
 		MinNontrivial:    200,
-		RequiredMonitors: []string{"matrix", "transpose", "pred-Equals", "pred-Crosses", "pred-identities"},
+		RequiredMonitors: []string{"matrix", "transpose", "pred-Equals", "pred-Crosses", "pred-identities", "relate-matches"},
 		Run:              runAll,
 	})
 }
@@ -166,6 +166,37 @@ func Judge(k *run.K, domain string, a, b geom.Geometry) {
 		}
 		obs[p.name] = v
 		k.Check("pred-"+p.name, e == nil && v == exp[p.name], "%s(a,b)=%v err=%v; pattern on exact matrix %q gives %v", p.name, v, e, want, exp[p.name])
+	}
+	// the public pattern matcher on the library's own matrix: every single-entry substitution of the
+	// all-wildcard pattern and of the matrix itself, plus random patterns
+	if err == nil && len(got) == 9 {
+		var pats []string
+		for i := 0; i < 9; i++ {
+			for _, ch := range "F012T*" {
+				p1 := []byte("*********")
+				p1[i] = byte(ch)
+				p2 := []byte(got)
+				p2[i] = byte(ch)
+				pats = append(pats, string(p1), string(p2))
+			}
+		}
+		for j := 0; j < 20; j++ {
+			pr := make([]byte, 9)
+			for i := range pr {
+				pr[i] = "F012T***"[k.Rng.Intn(8)]
+			}
+			pats = append(pats, string(pr))
+		}
+		for _, pat := range pats {
+			var v bool
+			var e error
+			if k.Lib("nopanic", func() { v, e = geom.RelateMatches(got, pat) }) {
+				break
+			}
+			if !k.Check("relate-matches", e == nil && v == match(got, pat), "RelateMatches(%q, %q) = %v, %v; definition gives %v", got, pat, v, e, match(got, pat)) {
+				break
+			}
+		}
 	}
 	// identities between calls
 	var wba, cbba bool
